@@ -174,16 +174,8 @@ func (r *zzvSPRig) fileState() string {
 	return ps.State.String()
 }
 
-// project observes the agent; wantConn says which connectivity the specification expects, so that the observation
-// waits for an asynchronous completion in that direction only (a timeout leaves the contrary observation standing).
-func (r *zzvSPRig) project(wantConn bool) zzvSPProj {
-	wait := 5 * time.Second
-	for _, pa := range r.polls {
-		if pa.pc == "inCallback" {
-			wait = r.window * 4 / 10 // stay inside the poll window
-		}
-	}
-	zzvWaitFor(wait, func() bool { return (r.connected() && r.listening()) == wantConn })
+// observe reads the agent's state once.
+func (r *zzvSPRig) observe() zzvSPProj {
 	p := zzvSPProj{St: r.x.A.GetSleepState().String(), File: r.fileState(), Conn: r.connected() && r.listening(),
 		Poll: []string{}}
 	for i := 0; i < r.npoll; i++ {
@@ -193,6 +185,20 @@ func (r *zzvSPRig) project(wantConn bool) zzvSPProj {
 			p.Poll = append(p.Poll, "none")
 		}
 	}
+	return p
+}
+
+// project observes the agent until it shows what the specification expects (asynchronous completions: reconnects,
+// the state file written after the state was stored); a timeout leaves the contrary observation standing.
+func (r *zzvSPRig) project(want zzvSPProj) zzvSPProj {
+	wait := 5 * time.Second
+	for _, pa := range r.polls {
+		if pa.pc == "inCallback" {
+			wait = r.window * 4 / 10 // stay inside the poll window
+		}
+	}
+	var p zzvSPProj
+	zzvWaitFor(wait, func() bool { p = r.observe(); return zzvJSON(p) == zzvJSON(want) })
 	return p
 }
 
@@ -361,7 +367,7 @@ func TestZZVSleepPollAgent(t *testing.T) {
 		}
 		r := zzvNewSPRig(t, len(init.Poll), window)
 		prevRaw := in.States[path.Init]
-		if real := r.project(init.Conn); zzvJSON(real) != zzvJSON(init.proj()) {
+		if real := r.project(init.proj()); zzvJSON(real) != zzvJSON(init.proj()) {
 			mism++
 			zzvEmit("mismatch", map[string]any{"path": pi, "step": -1, "why": "initial state", "real_t": real, "spec_proj": init.proj()})
 			r.destroy()
@@ -382,7 +388,7 @@ func TestZZVSleepPollAgent(t *testing.T) {
 				windows++
 			}
 			wp := want.proj()
-			real := r.project(wp.Conn)
+			real := r.project(wp)
 			if res != a.Res || zzvJSON(real) != zzvJSON(wp) {
 				mism++
 				acts := []json.RawMessage{}
